@@ -527,12 +527,12 @@ def _run_cfg(ctx, cfg):
     nfine = mo[proto]["fine"]
     rng = __import__("random").Random(ctx.rng.randrange(10 ** 9))
     singles = list(range(nfine + 1))
-    if ctx.quick:   # stratified: every point of the middle iteration, every 4th elsewhere, first/last
+    if ctx.quick:   # stratified: every point of the middle iteration, every 6th elsewhere, first/last
         per = (nfine - 5) // n
         lo = nfine - per * (n - 1)
-        singles = sorted(set(range(lo, lo + per + 1)) | set(range(0, nfine + 1, 4)) | {0, nfine - 1, nfine})
+        singles = sorted(set(range(lo, lo + per + 1)) | set(range(0, nfine + 1, 6)) | {0, nfine - 1, nfine})
     scen = [[k] for k in singles]
-    for _ in range(ctx.n(5, 60)):
+    for _ in range(ctx.n(3, 60)):
         scen.append([rng.randrange(1, nfine), rng.randrange(0, 40)])
     sims = ctx.model(DRIVER, [dict(op="sim", proto=proto, r0=r0, kills=ks, **base) for ks in scen])
     scenarios = []
@@ -617,7 +617,7 @@ def _real_crosscheck(ctx, cfg, allsc, ref):
     cand = [sid for sid in allsc if sid not in failing]
     ctx.rng.shuffle(cand)
     mid = [sid for sid in cand if any(k.get("when") == "partial" for k in allsc[sid]["kills"])]
-    pick = failing + mid[:ctx.n(1, 6)] + [sid for sid in cand if sid not in mid][:ctx.n(2, 8)]
+    pick = failing + mid[:ctx.n(1, 6)] + [sid for sid in cand if sid not in mid][:ctx.n(1, 8)]
     try:
         reals = _pool().map(lambda sid: (sid, _scenario_real(f"{cfg['strategy']}{cfg['seed']}_{sid}", cfg, allsc[sid]["kills"])), pick)
     except Infra as e:
